@@ -329,7 +329,9 @@ namespace msgpack {
                         auto nanoseconds = static_cast<int64_t>(rem) * nanos_in_milli;
                         if (nanoseconds < 0)
                         {
-                            nanoseconds = -nanoseconds; 
+                            // floor division: the nanoseconds field of a timestamp is always added to the seconds
+                            nanoseconds += nanos_in_second;
+                            seconds -= 1;
                         }
                         write_timestamp(seconds, nanoseconds);
                     }
@@ -556,7 +558,9 @@ namespace msgpack {
                         int64_t nanoseconds = dv.rem*nanos_in_milli;
                         if (nanoseconds < 0)
                         {
-                            nanoseconds = -nanoseconds; 
+                            // floor division: the nanoseconds field of a timestamp is always added to the seconds
+                            nanoseconds += nanos_in_second;
+                            seconds -= 1;
                         }
                         write_timestamp(seconds, nanoseconds);
                     }
